@@ -275,11 +275,17 @@ pub fn annotation(rng: &mut Rng) -> Ann {
 }
 
 pub fn annotations(rng: &mut Rng, p_num: usize, p_den: usize) -> Vec<Ann> {
-    let mut v = Vec::new();
+    let mut v: Vec<Ann> = Vec::new();
     if rng.chance(p_num, p_den) {
         let n = if rng.chance(1, 300) { rng.range(31, 40) } else { rng.range(1, 3) };
         for _ in 0..n {
-            v.push(annotation(rng));
+            if !v.is_empty() && rng.chance(1, 6) {
+                // the same annotation twice
+                let again: Ann = rng.pick(&v).clone();
+                v.push(again);
+            } else {
+                v.push(annotation(rng));
+            }
         }
     }
     v
